@@ -8,6 +8,7 @@ import OH.Driver.C15
 import OH.Driver.Cal
 import OH.Driver.Tz
 import OH.Driver.Nz
+import OH.Driver.C10
 /-
 `ohdriver`: reads protocol lines on stdin, prints one verdict line per input line.
 Only core + OH.Model/OH.Driver imports (no Mathlib), so it links as a `lean_exe`.
@@ -39,14 +40,49 @@ def step (line : String) : String :=
     let (args, impl) := splitArrow rest
     dispatch op args impl
 
-partial def loop (hin : IO.FS.Stream) (hout : IO.FS.Stream) : IO Unit := do
+/-- Suite `hol.*` (C10) is the only one that needs IO: the driver reads the two holiday data files
+itself.  `hol.load <public> <school>` (re)loads them; any other `hol.*` line arriving first loads
+`$OH_HOLIDAYS_PUBLIC` / `$OH_HOLIDAYS_SCHOOL` (default: the files of /repo).  The loaded state is kept;
+everything after the reading is the pure `OH.Driver.C10.handle`. -/
+def stepHol (ref : IO.Ref (Option OH.Driver.C10.Loaded)) (op : String) (args impl : List String) :
+    IO String := do
+  try
+    let L ← match op, args, (← ref.get) with
+      | "hol.load", [p, s], _ => do
+        let L ← OH.Driver.C10.load p s
+        ref.set (some L)
+        pure L
+      | _, _, some L => pure L
+      | _, _, none => do
+        let p := (← IO.getEnv "OH_HOLIDAYS_PUBLIC").getD OH.Driver.C10.defaultPublic
+        let s := (← IO.getEnv "OH_HOLIDAYS_SCHOOL").getD OH.Driver.C10.defaultSchool
+        let L ← OH.Driver.C10.load p s
+        ref.set (some L)
+        pure L
+    match OH.Driver.C10.handle L op args impl with
+    | some v => pure v
+    | none => pure s!"bad unknown-or-malformed op {op}"
+  catch e => pure s!"bad io {((toString e).replace " " "_").replace "\n" "_"}"
+
+def stepIO (ref : IO.Ref (Option OH.Driver.C10.Loaded)) (line : String) : IO String :=
+  match line.trimAscii.toString.splitOn " " with
+  | op :: rest =>
+    if op.startsWith "hol." then
+      let (args, impl) := splitArrow rest
+      stepHol ref op args impl
+    else pure (step line)
+  | [] => pure (step line)
+
+partial def loop (ref : IO.Ref (Option OH.Driver.C10.Loaded)) (hin : IO.FS.Stream) (hout : IO.FS.Stream) :
+    IO Unit := do
   let line ← hin.getLine
   if line.isEmpty then return ()
-  hout.putStrLn (step line)
-  loop hin hout
+  hout.putStrLn (← stepIO ref line)
+  loop ref hin hout
 
 def main : IO Unit := do
   let hin ← IO.getStdin
   let hout ← IO.getStdout
-  loop hin hout
+  let ref ← IO.mkRef (none : Option OH.Driver.C10.Loaded)
+  loop ref hin hout
   hout.flush
